@@ -58,6 +58,13 @@ SLOTS = [
     ("tag-open", "r = { ", "tg = a }"),
     ("tag-eq", "r = { #tg ", " a }"),
     ("doc", "//", " doc\nr = { a }"),
+    ("doc-end", "//! d", "\nr = { a }"),
+    ("doc-end-crlf", "//! d", "\n/// e\r\nr = { a }"),
+    ("ruledoc-end", "/// d", "\nr = { a }"),
+    ("ruledoc-eof", "r = { a }\n/// d", ""),
+    ("doc-lead", "//!", "d\nr = { a }"),
+    ("ws-eol", "r = { a ", "\n }"),
+    ("linecomment-end", "r = { a // c", "\n }"),
     ("doc-rule", "r = { a }\n//", " doc\ns = { b }"),
     ("kw-pop", "r = { PO", " }"),
     ("kw-pop-tail", "r = { POP", " }"),
